@@ -58,7 +58,34 @@ def _bb_arg(bb):
     return t
 
 
+def _impl_gridf(case):
+    """a lattice asked for by its number of nodes: step = (upper - lower) / (n - 1), a float that is in general not exact"""
+    bb = [(float(lo), float(hi)) for lo, hi in case["bb"]]
+    steps = tuple((hi - lo) / (n - 1) for (lo, hi), n in zip(bb, case["n"]))
+    g = np.asarray(wcstools.grid_from_bounding_box(tuple(bb) if len(bb) > 1 else bb[0], step=steps if len(bb) > 1 else steps[0], center=False))
+    if len(bb) == 1:
+        return {"counts": [int(g.shape[-1])], "last": [float(g.ravel()[-1])], "first": [float(g.ravel()[0])]}
+    # axis i varies along the (len - i)-th array axis ((x, y) order, row-major arrays)
+    counts = list(g.shape[1:])[::-1]
+    return {"counts": [int(c) for c in counts], "last": [float(g[i].max()) for i in range(len(bb))], "first": [float(g[i].min()) for i in range(len(bb))]}
+
+
+def _oracle_gridf(case, res):
+    out = []
+    for i, ((lo, hi), n) in enumerate(zip(case["bb"], case["n"])):
+        step = (hi - lo) / (n - 1)
+        if res["counts"][i] == n + 1 and abs(res["last"][i] - (hi + step)) <= 1e-6 * step:
+            # finding D59: the stop `upper + step` of the float range lands a hair beyond the exact last node, one more node is produced
+            out.append(("D59", "axis %d of box %s with %d nodes asked for (step %r): %d nodes, the last at %r, a whole step beyond the upper limit" %
+                        (i, case["bb"], n, step, res["counts"][i], res["last"][i])))
+        elif res["counts"][i] != n or abs(res["last"][i] - hi) > 1e-9 * max(1.0, abs(hi)) or res["first"][i] != lo:
+            out.append(("gridf", "axis %d of box %s with %d nodes asked for: %d nodes from %r to %r" % (i, case["bb"], n, res["counts"][i], res["first"][i], res["last"][i])))
+    return out
+
+
 def impl(case):
+    if case["kind"] == "gridf":
+        return _impl_gridf(case)
     if case["kind"] == "grid":
         bb = _bb_arg(case["bb"])
         arg = bb[0] if (len(bb) == 1 and case.get("bare", True)) else bb
@@ -141,6 +168,8 @@ def impl(case):
 
 def oracle(case, res):
     out = []
+    if case["kind"] == "gridf":
+        return _oracle_gridf(case, res)
     if case["kind"] == "grid":
         nd = len(case["bb"])
         step = [G.fr(s) for s in case["step"]]
@@ -245,6 +274,8 @@ def oracle(case, res):
 
 
 def request(case, res):
+    if case["kind"] == "gridf":
+        return None
     if case["kind"] == "grid":
         return {"op": "grid", "bb": case["bb"], "step": case["step"], "center": case["center"]}
     # the axis types as the frames report them and the requested type as it was spelled: the model does the case folding and the
@@ -278,6 +309,8 @@ def compare(case, res, resp):
 
 
 def nontrivial(case, res):
+    if case["kind"] == "gridf":
+        return True
     if case["kind"] == "grid":
         return any(G.fr(v).denominator != 1 for iv in case["bb"] for v in iv) or any(G.fr(s) != 1 for s in case["step"])
     return case["bb"] is not None and case["own"] is not None or case["center"]
@@ -301,6 +334,10 @@ def _lim(rng):
 
 def gen(rng, tier):
     q = tier == "quick"
+    for _ in range(10 if q else 400):
+        nd = rng.randint(1, 2)
+        bb = [[float(rng.choice([0, 1, -3])), float(rng.choice([100, 255, 1023, 2048, 4096]))] for _i in range(nd)]
+        yield {"kind": "gridf", "bb": bb, "n": [rng.choice([5, 8, 16, 24, 33]) for _i in range(nd)]}
     for _ in range(220 if q else 12000):
         nd = rng.randint(1, 3)
         bb = []
